@@ -20,11 +20,47 @@ type Domain int
 const (
 	DomainB Domain = iota
 	DomainX
+	DomainK
 )
+
+// DomainK: a non-NaN float64 is its order code, an Int in [-M-1, M] (M = bits of +Inf):
+// code(x) = bits(x) for sign-bit-clear values and -(bits(x)&abs)-1 otherwise. The map is a
+// bijection between non-NaN bit patterns and the interval, strictly monotone for the IEEE order
+// refined by -0 < +0. Moves, comparisons, min/max, neg, abs, Inf constants are exact; arithmetic
+// is not available (aborts). Used where a property is purely about order (C08).
+var kM = new(big.Int).SetUint64(expMask)
+
+func kCode(f float64) *big.Int {
+	b := math.Float64bits(f)
+	if b&signBit != 0 {
+		v := new(big.Int).SetUint64(b & absMask)
+		v.Neg(v)
+		return v.Sub(v, big.NewInt(1))
+	}
+	return new(big.Int).SetUint64(b)
+}
+
+func kBits(code *big.Int) uint64 {
+	if code.Sign() < 0 {
+		v := new(big.Int).Neg(code)
+		v.Sub(v, big.NewInt(1))
+		return v.Uint64() | signBit
+	}
+	return code.Uint64()
+}
+
+func (s *State) kBothZero(a, b *Term) *Term {
+	c := s.ctx
+	z := func(x *Term) *Term { return c.Or(c.Eq(x, c.IntConst(0)), c.Eq(x, c.IntConst(-1))) }
+	return c.And(z(a), z(b))
+}
 
 func (d Domain) String() string {
 	if d == DomainB {
 		return "B/U (bit patterns; arithmetic uninterpreted)"
+	}
+	if d == DomainK {
+		return "K (order codes of non-NaN float64 as integers; comparisons/min/max exact, no arithmetic)"
 	}
 	return "X (exact integer/dyadic; ideal reals after inexact ops)"
 }
@@ -44,6 +80,12 @@ const (
 func (s *State) fconstFloat(f float64) *Term {
 	if s.eng.cfg.Domain == DomainB {
 		return s.ctx.BVConst(math.Float64bits(f), 64)
+	}
+	if s.eng.cfg.Domain == DomainK {
+		if math.IsNaN(f) {
+			panic(abortf("NaN constant in domain K"))
+		}
+		return s.ctx.IntConstBig(kCode(f))
 	}
 	if math.IsNaN(f) || math.IsInf(f, 0) {
 		// no non-finite values in X; represent by a distinguished huge constant and flag
@@ -66,12 +108,33 @@ func (s *State) fconstFloat(f float64) *Term {
 
 // ----- DomainB helpers -----
 
+// knownNonNaN: syntactic fact derived from input assumptions (sound under the path condition).
+func (s *State) knownNonNaN(x *Term) bool {
+	if x.IsConst() {
+		return x.U&absMask <= expMask
+	}
+	if s.nonNaN[x] {
+		return true
+	}
+	if x.Op == OpIte && s.knownNonNaN(x.Args[1]) && s.knownNonNaN(x.Args[2]) {
+		s.nonNaN[x] = true
+		return true
+	}
+	return false
+}
+
 func (s *State) bIsNaN(x *Term) *Term {
 	c := s.ctx
+	if s.knownNonNaN(x) {
+		return c.False()
+	}
 	return c.BVUlt(c.BVConst(expMask, 64), c.BVAnd(x, c.BVConst(absMask, 64)))
 }
 func (s *State) bIsZero(x *Term) *Term {
 	c := s.ctx
+	if x.Op == OpIte {
+		return c.Ite(x.Args[0], s.bIsZero(x.Args[1]), s.bIsZero(x.Args[2]))
+	}
 	return c.Eq(c.BVAnd(x, c.BVConst(absMask, 64)), c.BVConst(0, 64))
 }
 func (s *State) bIsInf(x *Term, sign int) *Term {
@@ -96,6 +159,15 @@ func (s *State) bKey(x *Term) *Term {
 		}
 		return c.BVConst(x.U|signBit, 64)
 	}
+	if x.Op == OpIte {
+		// keys are computed on the leaves only, so min/max chains compare plain unsigned keys
+		if k, ok := s.keyMemo[x]; ok {
+			return k
+		}
+		k := c.Ite(x.Args[0], s.bKey(x.Args[1]), s.bKey(x.Args[2]))
+		s.keyMemo[x] = k
+		return k
+	}
 	neg := c.Eq(c.Extract(x, 63, 63), c.BVConst(1, 1))
 	return c.Ite(neg, c.BVNot(x), c.BVOr(x, c.BVConst(signBit, 64)))
 }
@@ -113,6 +185,9 @@ func (s *State) fneg(x *Term) *Term {
 	if s.eng.cfg.Domain == DomainB {
 		return s.ctx.BVXor(x, s.ctx.BVConst(signBit, 64))
 	}
+	if s.eng.cfg.Domain == DomainK {
+		return s.ctx.Sub(s.ctx.Neg(x), s.ctx.IntConst(1))
+	}
 	r := s.ctx.Neg(x)
 	if fi := s.finfo[x]; fi != nil {
 		n := &FInfo{exact: fi.exact, scale: fi.scale}
@@ -128,6 +203,9 @@ func (s *State) fneg(x *Term) *Term {
 func (s *State) fabs(x *Term) *Term {
 	if s.eng.cfg.Domain == DomainB {
 		return s.ctx.BVAnd(x, s.ctx.BVConst(absMask, 64))
+	}
+	if s.eng.cfg.Domain == DomainK {
+		return s.ctx.Ite(s.ctx.Lt(x, s.ctx.IntConst(0)), s.ctx.Sub(s.ctx.Neg(x), s.ctx.IntConst(1)), x)
 	}
 	c := s.ctx
 	r := c.Ite(c.Lt(x, s.xzero(x)), c.Neg(x), x)
@@ -155,6 +233,9 @@ func (s *State) xzero(like *Term) *Term {
 
 func (s *State) fmin(x, y *Term) *Term {
 	c := s.ctx
+	if s.eng.cfg.Domain == DomainK {
+		return c.Ite(c.Lt(y, x), y, x)
+	}
 	if s.eng.cfg.Domain == DomainX {
 		r := c.Ite(c.Lt(y, x), y, x)
 		s.joinInfo(r, x, y)
@@ -169,6 +250,9 @@ func (s *State) fmin(x, y *Term) *Term {
 
 func (s *State) fmax(x, y *Term) *Term {
 	c := s.ctx
+	if s.eng.cfg.Domain == DomainK {
+		return c.Ite(c.Lt(x, y), y, x)
+	}
 	if s.eng.cfg.Domain == DomainX {
 		r := c.Ite(c.Lt(x, y), y, x)
 		s.joinInfo(r, x, y)
@@ -185,6 +269,24 @@ func (s *State) fbinop(op token.Token, a, b *Term) Value {
 		return s.xbinop(op, a, b)
 	}
 	c := s.ctx
+	if s.eng.cfg.Domain == DomainK {
+		bz := s.kBothZero(a, b)
+		switch op {
+		case token.EQL:
+			return c.Or(c.Eq(a, b), bz)
+		case token.NEQ:
+			return c.Not(c.Or(c.Eq(a, b), bz))
+		case token.LSS:
+			return c.And(c.Lt(a, b), c.Not(bz))
+		case token.GTR:
+			return c.And(c.Lt(b, a), c.Not(bz))
+		case token.LEQ:
+			return c.Or(c.Le(a, b), bz)
+		case token.GEQ:
+			return c.Or(c.Le(b, a), bz)
+		}
+		panic(abortf("float arithmetic (%v) is not available in domain K", op))
+	}
 	switch op {
 	case token.EQL:
 		return s.bEq(a, b)
